@@ -126,3 +126,12 @@ def conjuncts(test: ast.AST) -> List[str]:
         else:
             out.append(norm(v).replace(" ", ""))
     return sorted(out)
+
+
+def conjunct_nodes(test: ast.AST) -> List[ast.AST]:
+    """the conjunct expressions of an `and` chain as nodes (a single test is its own conjunct)"""
+    vals = test.values if isinstance(test, ast.BoolOp) and isinstance(test.op, ast.And) else [test]
+    out: List[ast.AST] = []
+    for v in vals:
+        out += conjunct_nodes(v) if isinstance(v, ast.BoolOp) and isinstance(v.op, ast.And) else [v]
+    return out
